@@ -127,7 +127,7 @@ func (w *World) keywordTable() ([]string, token.Pos, bool) {
 
 func ruleC14R1(w *World, r *Report) {
 	const rule = "C14/R1"
-	r.rule(rule, "token.Keywords equals the documented reserved-keyword list (unique, upper-case); KeywordsMap is filled from Keywords in init; every KeywordsMap lookup key is derived from a char.ToUpper call", 4)
+	r.rule(rule, "token.Keywords equals the documented reserved-keyword list (unique, upper-case); after the package initialiser (followed by interpretation) KeywordsMap holds exactly its elements, and nothing writes it later; every KeywordsMap lookup key is derived from a char.ToUpper call; every keyword classifier (IsKeyword and whatever the lexer calls) says yes only on a hit and, followed by interpretation, yes for every keyword in any letter case", 6)
 	kws, pos, ok := w.keywordTable()
 	if !ok {
 		r.errorf("token.Keywords is not a composite literal of string constants")
@@ -167,39 +167,96 @@ func ruleC14R1(w *World, r *Report) {
 	} else {
 		r.ok(rule, "token.Keywords (set)", where, fmt.Sprintf("%d keywords == documented list", len(kws)))
 	}
-	// KeywordsMap: every MapUpdate happens in init with a key ranging over Keywords; lookups use ToUpper
+	w.keywordClassifierRules(r, rule, kws)
+}
+
+// tokenInit: the package initialiser of package token, followed by interpretation (CONCR with stores, arrays, slices
+// and maps): what its package-level tables hold when it returns.
+func (w *World) tokenInit() (*concr, string) {
+	if w.tokInit != nil || w.tokInitErr != "" {
+		return w.tokInit, w.tokInitErr
+	}
 	tsp := w.SSAPkg[modRoot+"/token"]
-	var kmap, kwGlobal *ssa.Global
+	if tsp == nil || tsp.Func("init") == nil {
+		w.tokInitErr = "package initialiser of token not found"
+		return nil, w.tokInitErr
+	}
+	ci := w.newConcr()
+	ci.heap = true
+	ci.zeroGlobals = true
+	out := ci.run(tsp.Func("init"), nil, 0)
+	ci.zeroGlobals = false
+	if out.status != "return" {
+		w.tokInitErr = "the package initialiser of token could not be followed: " + out.status + " " + out.why
+		return nil, w.tokInitErr
+	}
+	w.tokInit = ci
+	return ci, ""
+}
+
+// keywordClassifierRules: KeywordsMap holds exactly Keywords after initialisation and is not written later; every lookup
+// key is upper-cased; every function that answers "is s a keyword" answers yes only on a table hit (structure) and does
+// answer yes for every keyword in every letter case (interpretation) — fast paths, helpers and tables of lengths included.
+func (w *World) keywordClassifierRules(r *Report, rule string, kws []string) {
+	tsp := w.SSAPkg[modRoot+"/token"]
+	var kmap *ssa.Global
 	if tsp != nil {
 		kmap, _ = tsp.Members["KeywordsMap"].(*ssa.Global)
-		kwGlobal, _ = tsp.Members["Keywords"].(*ssa.Global)
 	}
-	if kmap == nil || kwGlobal == nil {
-		r.errorf("token.KeywordsMap / token.Keywords not found")
+	if kmap == nil {
+		r.errorf("token.KeywordsMap not found")
 		return
 	}
-	updates, lookups := 0, 0
+	ci, err := w.tokenInit()
+	if ci == nil {
+		r.undecided(rule, "KeywordsMap after initialisation", w.pos(kmap.Pos()), err)
+		return
+	}
+	// (1) contents
+	cell := ci.globals[kmap]
+	if cell == nil || cell.v.kind != cMapV {
+		r.bad(rule, "KeywordsMap after initialisation", w.pos(kmap.Pos()), "the package initialiser does not leave a map in token.KeywordsMap")
+		return
+	}
+	have := map[string]bool{}
+	for _, k := range cell.v.mv.keys {
+		if k.kind == cConst && k.c.Kind() == constant.String {
+			have[constant.StringVal(k.c)] = true
+		}
+	}
+	var missing, extra []string
+	want := map[string]bool{}
+	for _, k := range kws {
+		want[k] = true
+		if !have[k] {
+			missing = append(missing, k)
+		}
+	}
+	for k := range have {
+		if !want[k] {
+			extra = append(extra, k)
+		}
+	}
+	sort.Strings(missing)
+	sort.Strings(extra)
+	if len(missing)+len(extra) > 0 || len(have) != len(cell.v.mv.e) {
+		r.bad(rule, "KeywordsMap after initialisation", w.pos(kmap.Pos()), fmt.Sprintf("KeywordsMap does not hold exactly the elements of Keywords after the package initialiser: missing %v, extra %v", missing, extra))
+	} else {
+		r.ok(rule, "KeywordsMap after initialisation", w.pos(kmap.Pos()), fmt.Sprintf("the package initialiser (followed by interpretation) leaves exactly the %d elements of Keywords in it", len(have)))
+	}
+	// (2) not written afterwards; (3) every lookup key is upper-cased
+	lookups := 0
 	for _, fn := range w.ModFns {
 		for _, b := range fn.Blocks {
 			for _, in := range b.Instrs {
 				switch in := in.(type) {
 				case *ssa.MapUpdate:
-					if ld, ok := isLoad(in.Map); ok && ld == ssa.Value(kmap) {
-						updates++
-						// key must be an element of Keywords obtained by ranging over it
-						okKey := false
-						if kl, ok := isLoad(in.Key); ok {
-							if ia, ok := kl.(*ssa.IndexAddr); ok {
-								if sl, ok := isLoad(ia.X); ok && sl == ssa.Value(kwGlobal) {
-									okKey = true
-								}
-							}
-						}
-						if okKey && isInitFunc(fn) {
-							r.ok(rule, "KeywordsMap fill in "+funcName(fn), w.pos(in.Pos()), "KeywordsMap[k] for k ranging over Keywords, in init")
-						} else {
-							r.bad(rule, "KeywordsMap fill in "+funcName(fn), w.pos(in.Pos()), "KeywordsMap is updated with a key that is not an element of Keywords, or outside init")
-						}
+					if ld, ok := isLoad(in.Map); ok && ld == ssa.Value(kmap) && !isInitFunc(fn) {
+						r.bad(rule, "KeywordsMap written in "+funcName(fn), w.pos(in.Pos()), "KeywordsMap is updated outside the package initialiser")
+					}
+				case *ssa.Store:
+					if in.Addr == ssa.Value(kmap) && !isInitFunc(fn) {
+						r.bad(rule, "KeywordsMap assigned in "+funcName(fn), w.pos(in.Pos()), "KeywordsMap is replaced outside the package initialiser")
 					}
 				case *ssa.Lookup:
 					if ld, ok := isLoad(in.X); ok && ld == ssa.Value(kmap) {
@@ -214,9 +271,314 @@ func ruleC14R1(w *World, r *Report) {
 			}
 		}
 	}
-	if updates == 0 || lookups < 2 {
-		r.errorf("expected KeywordsMap to be filled in init and looked up by the lexer and IsKeyword (updates=%d lookups=%d)", updates, lookups)
+	if lookups == 0 {
+		r.errorf("no lookup in token.KeywordsMap found")
+		return
 	}
+	// (4) the classifiers
+	cls := w.keywordClassifiers(kmap)
+	ik := w.fn(w.Tok, "IsKeyword")
+	if ik == nil {
+		r.errorf("token.IsKeyword not found")
+		return
+	}
+	if !cls[ik] {
+		r.bad(rule, "token.IsKeyword", w.pos(ik.Pos()), "IsKeyword neither looks its argument up in KeywordsMap nor asks a function that does")
+	}
+	var fns []*ssa.Function
+	for f := range cls {
+		fns = append(fns, f)
+	}
+	sort.Slice(fns, func(i, j int) bool { return funcName(fns[i]) < funcName(fns[j]) })
+	for _, f := range fns {
+		construct := "keyword classifier " + funcName(f)
+		if why := w.classifierSound(f, kmap, cls); why != "" {
+			r.bad(rule, construct, w.pos(f.Pos()), why+": QuoteSQLIdent and the lexer can disagree about what is reserved")
+			continue
+		}
+		bad, und := w.classifierComplete(ci, f, kws)
+		switch {
+		case und != "":
+			r.undecided(rule, construct, w.pos(f.Pos()), und)
+		case bad != "":
+			r.bad(rule, construct, w.pos(f.Pos()), bad)
+		default:
+			r.ok(rule, construct, w.pos(f.Pos()), fmt.Sprintf("answers yes only on a KeywordsMap hit of char.ToUpper(s) (structure), and — followed by interpretation with the initialised tables — yes for all %d keywords in upper, lower and mixed case and no for %d near-misses", len(kws), 3*len(kws)+1))
+		}
+	}
+	// (5) the lexer classifies through the same table
+	sites := 0
+	for _, fn := range w.ModFns {
+		if fnPkgPath(fn) != modRoot || !strings.HasSuffix(w.fileOf(fn.Pos()), "lexer.go") {
+			continue
+		}
+		for _, b := range fn.Blocks {
+			for _, in := range b.Instrs {
+				switch in := in.(type) {
+				case *ssa.Lookup:
+					if ld, ok := isLoad(in.X); ok && ld == ssa.Value(kmap) {
+						sites++
+					}
+				case *ssa.Call:
+					if c := in.Call.StaticCallee(); c != nil && cls[c] {
+						sites++
+					}
+				}
+			}
+		}
+	}
+	if sites == 0 {
+		r.bad(rule, "keyword classification of the lexer", "lexer.go", "the lexer neither looks identifiers up in token.KeywordsMap nor calls a function that does: reserved words are not recognised from the table IsKeyword uses")
+	} else {
+		r.ok(rule, "keyword classification of the lexer", "lexer.go", fmt.Sprintf("%d site(s) use KeywordsMap or a classifier that does", sites))
+	}
+}
+
+// keywordClassifiers: functions with a string parameter and a boolean result that look up KeywordsMap or call one that does.
+func (w *World) keywordClassifiers(kmap *ssa.Global) map[*ssa.Function]bool {
+	cls := map[*ssa.Function]bool{}
+	shape := func(fn *ssa.Function) bool {
+		if fn.Signature.Recv() != nil || fn.Parent() != nil {
+			return false
+		}
+		hasStr, hasBool := false, false
+		for _, p := range fn.Params {
+			if isStringType(p.Type()) {
+				hasStr = true
+			}
+		}
+		res := fn.Signature.Results()
+		for i := 0; i < res.Len(); i++ {
+			if isBoolType(res.At(i).Type()) {
+				hasBool = true
+			}
+		}
+		return hasStr && hasBool
+	}
+	for changed := true; changed; {
+		changed = false
+		for _, fn := range w.ModFns {
+			if cls[fn] || !shape(fn) {
+				continue
+			}
+			for _, b := range fn.Blocks {
+				for _, in := range b.Instrs {
+					switch in := in.(type) {
+					case *ssa.Lookup:
+						if ld, ok := isLoad(in.X); ok && ld == ssa.Value(kmap) {
+							cls[fn], changed = true, true
+						}
+					case *ssa.Call:
+						// a function that only relays the verdict of a classifier (IsKeyword calling LookupKeyword); one that
+						// combines it with other conditions (needQuoteSQLIdent) is a user, not a classifier
+						if c := in.Call.StaticCallee(); c != nil && cls[c] && !cls[fn] {
+							cls[fn] = true
+							if w.classifierSound(fn, kmap, cls) == "" {
+								changed = true
+							} else {
+								delete(cls, fn)
+							}
+						}
+					}
+				}
+			}
+		}
+	}
+	return cls
+}
+
+// classifierSound: every way for the boolean result to be true goes through a hit of KeywordsMap[char.ToUpper(param)]
+// (or the yes of another classifier asked about the same parameter).
+func (w *World) classifierSound(fn *ssa.Function, kmap *ssa.Global, cls map[*ssa.Function]bool) string {
+	var param *ssa.Parameter
+	for _, p := range fn.Params {
+		if isStringType(p.Type()) {
+			if param != nil {
+				return "two string parameters"
+			}
+			param = p
+		}
+	}
+	bi := -1
+	res := fn.Signature.Results()
+	for i := 0; i < res.Len(); i++ {
+		if isBoolType(res.At(i).Type()) {
+			bi = i
+		}
+	}
+	aboutParam := func(v ssa.Value) bool {
+		// char.ToUpper(param), possibly converted
+		c := stripToCall(v)
+		return c != nil && len(c.Call.Args) == 1 && c.Call.Args[0] == ssa.Value(param) && w.derivesFromCall(v, modRoot+"/char", "ToUpper")
+	}
+	// hit values: Extract #1 of a KeywordsMap lookup about the parameter, or the boolean result of a classifier call on the parameter
+	isHit := func(v ssa.Value) bool {
+		ex, ok := v.(*ssa.Extract)
+		if !ok {
+			if c, ok := v.(*ssa.Call); ok {
+				if cc := c.Call.StaticCallee(); cc != nil && cls[cc] && len(c.Call.Args) == 1 && c.Call.Args[0] == ssa.Value(param) {
+					return true
+				}
+			}
+			return false
+		}
+		switch t := ex.Tuple.(type) {
+		case *ssa.Lookup:
+			ld, ok := isLoad(t.X)
+			return ok && ld == ssa.Value(kmap) && ex.Index == 1 && aboutParam(t.Index)
+		case *ssa.Call:
+			cc := t.Call.StaticCallee()
+			if cc == nil || !cls[cc] || len(t.Call.Args) != 1 || t.Call.Args[0] != ssa.Value(param) {
+				return false
+			}
+			return isBoolType(ex.Type())
+		}
+		return false
+	}
+	// blocks reached only under a hit
+	underHit := func(b *ssa.BasicBlock) bool {
+		for d := b; d != nil; d = d.Idom() {
+			p := d.Idom()
+			if p == nil {
+				return false
+			}
+			iff, ok := p.Instrs[len(p.Instrs)-1].(*ssa.If)
+			if !ok {
+				continue
+			}
+			if isHit(iff.Cond) && p.Succs[0] == d && len(d.Preds) == 1 {
+				return true
+			}
+			if u, ok := iff.Cond.(*ssa.UnOp); ok && u.Op == token.NOT && isHit(u.X) && p.Succs[1] == d && len(d.Preds) == 1 {
+				return true
+			}
+		}
+		return false
+	}
+	var trueOnlyOnHit func(v ssa.Value, at *ssa.BasicBlock, seen map[ssa.Value]bool) bool
+	trueOnlyOnHit = func(v ssa.Value, at *ssa.BasicBlock, seen map[ssa.Value]bool) bool {
+		if b, ok := constBool(v); ok {
+			return !b || underHit(at)
+		}
+		if isHit(v) {
+			return true
+		}
+		if underHit(at) {
+			return true
+		}
+		if phi, ok := v.(*ssa.Phi); ok {
+			if seen[v] {
+				return true
+			}
+			seen[v] = true
+			for i, e := range phi.Edges {
+				if !trueOnlyOnHit(e, phi.Block().Preds[i], seen) {
+					return false
+				}
+			}
+			return true
+		}
+		return false
+	}
+	n := 0
+	for _, b := range fn.Blocks {
+		ret, ok := b.Instrs[len(b.Instrs)-1].(*ssa.Return)
+		if !ok || bi >= len(ret.Results) {
+			continue
+		}
+		n++
+		if !trueOnlyOnHit(ret.Results[bi], b, map[ssa.Value]bool{}) {
+			return "the answer returned at " + w.pos(ret.Pos()) + " can be yes without a hit of KeywordsMap[char.ToUpper(" + param.Name() + ")]"
+		}
+	}
+	if n == 0 {
+		return "no return found"
+	}
+	return ""
+}
+
+func mixedCase(s string) string {
+	b := []byte(strings.ToLower(s))
+	for i := 0; i < len(b); i += 2 {
+		if 'a' <= b[i] && b[i] <= 'z' {
+			b[i] -= 'a' - 'A'
+		}
+	}
+	return string(b)
+}
+
+// classifierComplete: followed by interpretation with the tables the package initialiser built, the function says yes for
+// every keyword in three spellings (and returns the keyword's kind when it returns one) and no for near-misses.
+func (w *World) classifierComplete(init *concr, fn *ssa.Function, kws []string) (bad, undecided string) {
+	call := func(sv string) (yes bool, kind string, hasKind bool, und string) {
+		ci := w.newConcr()
+		ci.heap = true
+		ci.globals = init.globals
+		var args []cval
+		for _, p := range fn.Params {
+			if isStringType(p.Type()) {
+				args = append(args, cval{kind: cConst, c: constant.MakeString(sv)})
+			} else {
+				args = append(args, cval{})
+			}
+		}
+		out := ci.run(fn, args, 0)
+		if out.status == "panic" {
+			return false, "", false, ""
+		}
+		if out.status != "return" {
+			return false, "", false, fmt.Sprintf("%s(%q) could not be followed: %s", funcName(fn), sv, out.why)
+		}
+		found := false
+		for _, v := range out.vals {
+			if v.kind == cConst && v.c.Kind() == constant.Bool {
+				yes, found = constant.BoolVal(v.c), true
+			}
+			if v.kind == cConst && v.c.Kind() == constant.String {
+				kind, hasKind = constant.StringVal(v.c), true
+			}
+		}
+		if !found {
+			return false, "", false, fmt.Sprintf("%s(%q) does not return a known boolean", funcName(fn), sv)
+		}
+		return
+	}
+	isKw := map[string]bool{}
+	for _, k := range kws {
+		isKw[k] = true
+	}
+	for _, k := range kws {
+		for _, sp := range []string{k, strings.ToLower(k), mixedCase(k)} {
+			yes, kind, hasKind, und := call(sp)
+			if und != "" {
+				return "", und
+			}
+			if !yes {
+				return fmt.Sprintf("%s(%q) says no (followed by interpretation: a fast path, a length table or a helper rejects the keyword %s)", funcName(fn), sp, k), ""
+			}
+			if hasKind && kind != k {
+				return fmt.Sprintf("%s(%q) returns the kind %q, not %s", funcName(fn), sp, kind, k), ""
+			}
+		}
+		for _, sp := range []string{k + "X", "X" + k, k[:len(k)-1]} {
+			if isKw[strings.ToUpper(sp)] {
+				continue
+			}
+			yes, _, _, und := call(sp)
+			if und != "" {
+				return "", und
+			}
+			if yes {
+				return fmt.Sprintf("%s(%q) says yes for a word that is not reserved", funcName(fn), sp), ""
+			}
+		}
+	}
+	if yes, _, _, und := call(""); und != "" {
+		return "", und
+	} else if yes {
+		return funcName(fn) + `("") says yes`, ""
+	}
+	return "", ""
 }
 
 // derivesFromCall: v is (a conversion of) the result of a call to pkg.name.
@@ -1239,7 +1601,7 @@ func ruleC14R6(w *World, r *Report) {
 // ruleC14R7: the dot-identifier reader and the raw-literal arm.
 func ruleC14R7(w *World, r *Report) {
 	const rule = "C14/R7"
-	r.rule(rule, "after '.', the field-token reader turns every run of identifier-part characters (letters, digits, '_' — keywords and digits included) into one <ident> token whose name is exactly that run; in raw literals a backslash keeps itself and the next character and both are skipped, so an escaped quote does not end the literal; token.IsKeyword is a plain lookup of char.ToUpper(s) in KeywordsMap", 3)
+	r.rule(rule, "after '.', the field-token reader turns every run of identifier-part characters (letters, digits, '_' — keywords and digits included) into one <ident> token whose name is exactly that run; in raw literals a backslash keeps itself and the next character and both are skipped, so an escaped quote does not end the literal (the keyword classifiers moved to C14/R1)", 2)
 	// --- consumeFieldToken ---
 	cf := w.fn(w.Mem, "(*Lexer).consumeFieldToken")
 	isPart := w.fn(w.Char, "IsIdentPart")
@@ -1365,32 +1727,6 @@ func ruleC14R7(w *World, r *Report) {
 		if !found {
 			r.bad(rule, "raw literal arm", w.pos(fd.Pos()), "consumeQuotedContent has no `if raw` arm")
 		}
-	}
-	// --- IsKeyword ---
-	ik := w.fn(w.Tok, "IsKeyword")
-	if ik == nil {
-		r.errorf("token.IsKeyword not found")
-		return
-	}
-	plain := len(ik.Blocks) == 1
-	var lk *ssa.Lookup
-	for _, b := range ik.Blocks {
-		for _, in := range b.Instrs {
-			if l, ok := in.(*ssa.Lookup); ok {
-				lk = l
-			}
-		}
-	}
-	okShape := plain && lk != nil && w.derivesFromCall(lk.Index, modRoot+"/char", "ToUpper")
-	if okShape {
-		if call := stripToCall(lk.Index); call == nil || call.Call.Args[0] != ssa.Value(ik.Params[0]) {
-			okShape = false
-		}
-	}
-	if okShape {
-		r.ok(rule, "token.IsKeyword", w.pos(ik.Pos()), "KeywordsMap[TokenKind(char.ToUpper(s))] without any other condition")
-	} else {
-		r.bad(rule, "token.IsKeyword", w.pos(ik.Pos()), "IsKeyword is not a plain lookup of char.ToUpper(s) in KeywordsMap (extra conditions, length limits or another table): QuoteSQLIdent and the lexer can disagree about what is reserved")
 	}
 }
 
